@@ -791,6 +791,9 @@ impl Hub {
 
     /// OpenFlow on incentive 0 paying the flow in asset 1 (uusdc) and the fee in uwhale
     pub fn open_flow_msg(&self, amount: u128) -> CosmosMsg {
+        self.open_flow_msg_l(amount, None)
+    }
+    pub fn open_flow_msg_l(&self, amount: u128, label: Option<String>) -> CosmosMsg {
         wasm_exec(
             &self.incentives[0].0,
             &incentive::ExecuteMsg::OpenFlow {
@@ -798,7 +801,7 @@ impl Hub {
                 end_epoch: None,
                 curve: None,
                 flow_asset: Asset { info: self.assets[1].clone(), amount: Uint128::new(amount) },
-                flow_label: None,
+                flow_label: label,
             },
             sorted_funds(vec![coin(amount, NATIVES[1]), coin(1_000, NATIVES[0])]),
         )
